@@ -61,6 +61,14 @@ func c11Owned(w *storWorld) map[string]map[string]string {
 	}
 	for _, f := range w.c.App.StorageKeeper.GetAllFileByOwner(w.f.Ctx) {
 		put(f.Owner, "file:"+fileKey(f.Merkle, f.Owner, f.Start), "exists")
+		// the proof records behind the file's prover list belong to the file (and so to its owner): without them the
+		// chain drops the provers and then the file
+		for _, pk := range f.Proofs {
+			prover := strings.SplitN(pk, "/", 2)[0]
+			if _, found := w.c.App.StorageKeeper.GetProof(w.f.Ctx, prover, f.Merkle, f.Owner, f.Start); found {
+				put(f.Owner, "file-proof:"+fileKey(f.Merkle, f.Owner, f.Start)+":"+prover, "exists")
+			}
+		}
 	}
 	return out
 }
@@ -300,6 +308,16 @@ func TestC11(t *testing.T) {
 			w.f.Exec(&notiftypes.MsgBlockSenders{Creator: a.Bech, ToBlock: []string{accs[4].Bech}})
 			w.buyStorage(a, a.Bech, 30, 1_000_000_000, "")
 			w.postFile(a, append([]byte{byte(i + 1)}, c02Content(50)...), 2, 0)
+		}
+		// two owners store the same content, posted in the same block, and the same provider proves both copies
+		{
+			twin := append([]byte{77}, c02Content(40)...)
+			f0, r0 := w.postFile(accs[0], twin, 2, 0)
+			f1, r1 := w.postFile(accs[1], twin, 2, 0)
+			if r0.OK() && r1.OK() {
+				w.honestProve(accs[2], f0)
+				w.honestProve(accs[2], f1)
+			}
 		}
 		// a sparse, generated who-wrote-to-whom pattern (inboxes are neighbours in one key space)
 		for i, from := range accs {
